@@ -150,6 +150,22 @@ void rep_viol(const char *key, const char *fmt, ...)
 	out(buf, (size_t)n);
 }
 
+/* the case cannot be judged by this property's monitor (e.g. the library dies in it regardless of what the property is about) */
+void rep_inconclusive(const char *fmt, ...)
+{
+	static int n_emitted;
+	if (n_emitted++ >= 5) return;
+	char buf[2000]; int n = snprintf(buf, sizeof buf, "I\t%s\t", g_cur);
+	va_list ap; va_start(ap, fmt);
+	int m = vsnprintf(buf + n, sizeof buf - (size_t)n - 2, fmt, ap);
+	va_end(ap);
+	if (m < 0) m = 0;
+	n += m; if (n > (int)sizeof buf - 2) n = sizeof buf - 2;
+	for (int j = 2; j < n; j++) if (buf[j] == '\n') buf[j] = ' ';
+	buf[n++] = '\n';
+	out(buf, (size_t)n);
+}
+
 void rep_note(const char *fmt, ...)
 {
 	char buf[2000]; int n = snprintf(buf, sizeof buf, "N\t");
